@@ -15,6 +15,16 @@ Static rules (DESIGN.md §C09):
                   reusing the generator, records what it compared, and siblings prepare the new generator alike
  ctor-roundtrip   NLDFAuxiliaryPlan.new() feeds back attributes that still hold the raw constructor argument
  chunk-loop       KernelEvaluator.__call__ covers [0, N) chunk by chunk and accumulates with +=
+ reinit-reset     reset()/build() of the numint mixin clear every generator kept across calls, and the Kohn-Sham
+                  wrapper reaches those hooks on every path (the reuse tests are identity tests on objects that
+                  PySCF modifies in place)
+ cache-alias      a value stored into keyed per-object state that outlives the call (self._cache[spin] = ...,
+                  self._cached_p_i_qg[s].append(p), also through helper methods and returned values) does not
+                  may-alias an instance-attribute buffer that later calls rewrite in place (one array per object,
+                  passed as buffer=/vbuf=/out= or written through a view)
+ kernel-input-write  hidden-write for ciderpress/models: kernels and DFTKernel do not mutate X, Y, alpha ...
+ memo-invalidate  a memoised attribute (early `return self.M` + fill) is reset by every method that assigns an
+                  attribute it was computed from
 """
 import ast
 import os
@@ -36,6 +46,8 @@ XE = "ciderpress/dft/xc_evaluator.py"
 XE2 = "ciderpress/dft/xc_evaluator2.py"
 GEN = "ciderpress/dft/lcao_nldf_generator.py"
 SDMX = "ciderpress/pyscf/sdmx.py"
+KERNELS = "ciderpress/models/kernels.py"
+DFTKERNEL = "ciderpress/models/dft_kernel.py"
 
 INTEGRATORS = ["nr_rks", "nr_uks", "nr_rks_nldf", "nr_uks_nldf"]
 GRADS = ["get_vxc", "get_vxc_nldf", "get_vxc_full_response", "get_vxc_nldf_full_response"]
@@ -46,10 +58,13 @@ EFF_MODULES = [
     SETTINGS, PLANS, TD, FN, XE, XE2, GEN,
     "ciderpress/dft/lcao_interpolation.py", "ciderpress/dft/lcao_convolutions.py", "ciderpress/dft/baselines.py",
     "ciderpress/dft/grids_indexer.py", NUMINT, RKSG, UKSG, SDMX, "ciderpress/pyscf/nldf_convolutions.py",
-    "ciderpress/pyscf/frac_lapl.py", "ciderpress/pyscf/dft.py",
+    "ciderpress/pyscf/frac_lapl.py", "ciderpress/pyscf/dft.py", KERNELS, DFTKERNEL,
 ]
 # every public function / public method of these modules is an API entry point
-PUBLIC_API_MODULES = [SETTINGS, PLANS, TD, FN, XE, XE2]
+PUBLIC_API_MODULES = [SETTINGS, PLANS, TD, FN, XE, XE2, KERNELS, DFTKERNEL]
+# private methods that are nevertheless evaluation entry points (called by sklearn / by the public methods
+# with the caller's sample matrices)
+EXTRA_ENTRY_PREFIXES = {KERNELS: ("_transform", "_get_k0", "_subset", "_index")}
 # plus the observation points of the properties
 EXPLICIT_API = [(NUMINT, n) for n in INTEGRATORS] + [(NUMINT, "CiderNumIntMixin.eval_xc_cider")] + \
     [(RKSG, n) for n in GRADS + ["get_veff"]] + [(UKSG, n) for n in GRADS + ["get_veff"]] + \
@@ -60,14 +75,31 @@ EXPLICIT_API = [(NUMINT, n) for n in INTEGRATORS] + [(NUMINT, "CiderNumIntMixin.
 # (frozen from the signatures on the pinned tree), or the first data argument of a function that
 # has an explicit `inplace` switch.
 OUT_NAMES = set("""out buf res dres feat dfeat vxc vmat vf f_gq f_uq dfdx dfdrho dfdinh xn y tdesc vbuf dbuf output
-vrho vsigma vtau vrho_data vdrho vf_qg occd f_arlpq f1_uq theta_rlmq vxc_mat l0tmp l1tmp vmats buffers aow v1 excsum
+vrho vsigma vtau vrho_data vdrho vf_qg occd f_arlpq f1_uq theta_rlmq vxc_mat vmats buffers aow aow1 aow2 v1 excsum
 e dedx vX0T p_uq vrho_tuple dfdX1 f_rlmq vf_gq""".split())
 # names that are buffers only in functions named `..._` (the repo's in-place naming convention)
 OUT_NAMES_INPLACE_FN = {"f"}
 
 
+def _allocated_if_none(f, p):
+    """`if p is None: p = <new array>` (also as an elif): the repo's optional-output-buffer idiom"""
+    cache = f.__dict__.setdefault("_alloc_if_none", {})
+    if p not in cache:
+        ok = False
+        for n in pf.walk_no_nested(f.node):
+            if isinstance(n, ast.If) and isinstance(n.test, ast.Compare) and pf.src(n.test) == "%s is None" % p:
+                ok = ok or any(isinstance(b, ast.Assign) and any(isinstance(t, ast.Name) and t.id == p for t in b.targets)
+                               for b in n.body)
+        cache[p] = ok
+    return cache[p]
+
+
 def is_buffer(f, p):
-    if p in f.default_none or p in OUT_NAMES:
+    if p in OUT_NAMES:
+        return True
+    # an optional `=None` parameter is an output buffer when the function allocates it itself if missing
+    # (an optional *input*, e.g. l1tmp of SDMXBasePlan.get_vxc, is not)
+    if p in f.default_none and _allocated_if_none(f, p):
         return True
     if f.node.name.endswith("_") and p in OUT_NAMES_INPLACE_FN:
         return True
@@ -296,7 +328,8 @@ def api_entries(P):
             if f.rel != rel or f.outer is not None:
                 continue
             nm = f.node.name
-            if nm.startswith("_") and nm != "__call__":
+            if nm.startswith("_") and nm not in ("__call__", "__init__") and not nm.startswith(
+                    EXTRA_ENTRY_PREFIXES.get(rel, ("\0",))):
                 continue
             entries[f.key] = f
     for rel, q in EXPLICIT_API:
@@ -349,7 +382,8 @@ def rule_hidden_write(chk):
             pth = P.path(f0, r0, oid)
             if pth:
                 msg += ". Example path: " + " -> ".join(pth)
-        chk.violation("hidden-write", o.func.rel, o.func.qual, construct, o.line, msg,
+        rid = "kernel-input-write" if o.func.rel.startswith("ciderpress/models/") else "hidden-write"
+        chk.violation(rid, o.func.rel, o.func.qual, construct, o.line, msg,
                       instance="%s:%s %s" % (o.func.rel, o.func.qual, construct))
     # discharged obligations: every non-buffer parameter of every entry point that no origin reaches
     for key, f in sorted(entries.items()):
@@ -361,15 +395,108 @@ def rule_hidden_write(chk):
             ent = f.writes.get(p)
             bad = ent and any(oid in reported for oid in ent["origins"])
             if not bad:
-                chk.ok("hidden-write", "%s:%s(%s) not written" % (f.rel, f.qual, p),
-                       nontrivial=p in f.array_evidence)
+                rid = "kernel-input-write" if f.rel.startswith("ciderpress/models/") else "hidden-write"
+                chk.ok(rid, "%s:%s(%s) not written" % (f.rel, f.qual, p), nontrivial=p in f.array_evidence)
+    rule_cache_alias(chk, P)
     return P
+
+
+# ----------------------------------------------------------------------------
+# rule cache-alias: values stored in keyed per-object state must not alias a reusable scratch buffer
+# ----------------------------------------------------------------------------
+def _related_classes(P, cls):
+    mod = P._mod_of_class(cls)
+    rel = [c for _, c in P.prog.mro(mod, cls)] if mod is not None else [cls]
+    rel += [c for _, c in P.subclasses(cls)]
+    return rel
+
+
+def _scratch_writes(P, classes, attr):
+    """(method, statement) pairs that rewrite, in place, the storage of instance attribute `attr` (not selected
+    by a run-time key) in one of `classes`"""
+    ids = {id(c) for c in classes}
+    out = []
+    for g in P.funcs.values():
+        if g.cls is None or id(g.cls) not in ids:
+            continue
+        for r, texts in g.state.items():
+            parts, key = effects.state_parts(r)
+            if parts == (attr,) and (key is None or key.startswith("const:")):
+                out.append((g, sorted(texts)[0]))
+    return out
+
+
+def rule_cache_alias(chk, P):
+    n_keyed = 0
+    for f in sorted(P.funcs.values(), key=lambda x: x.key):
+        if f.cls is None:
+            continue
+        flagged = set()
+        for target, key, root, text, line, via in sorted(f.cache_events):
+            parts, rkey = effects.state_parts(root)
+            inst = "%s:%s %s[%s] <- %s" % (f.rel, f.qual, target, key, root)
+            if rkey is not None and not rkey.startswith("const:"):
+                chk.ok("cache-alias", inst + " (buffer selected by a run-time key)")
+                continue
+            weak = False
+            if len(parts) == 1:
+                classes = _related_classes(P, f.cls)
+            elif len(parts) == 2:
+                classes = []
+                for c in P.attr_types(f.cls, parts[0]):
+                    classes += _related_classes(P, c)
+                if not classes:
+                    weak = True
+                    classes = [c for _, c in P.prog.all_classes()]
+            else:
+                chk.ok("cache-alias", inst + " (not decided)", nontrivial=False)
+                continue
+            sw = _scratch_writes(P, classes, parts[-1])
+            if not sw:
+                chk.ok("cache-alias", inst + " (attribute storage is never rewritten in place)")
+                continue
+            g, wtext = sw[0]
+            own = [x for x in sw if "->" not in x[1]] or sw
+            g, wtext = own[0]
+            msg = ("`%s`%s stores, in the per-%s slot %s[%s] that outlives the call, a value that may alias the "
+                   "instance buffer %s; that buffer is one array per object and is rewritten in place by later calls "
+                   "(e.g. %s: `%s`), so the entries kept for different %s values share storage and the one stored "
+                   "first is silently overwritten before it is consumed; store a copy" % (
+                       text, (" (through %s)" % via) if via else "", key, target, key, root, g.qual, wtext[:80], key))
+            if weak:
+                chk.note("cache-alias", "%s:%s:%s" % (f.rel, f.qual, line), msg + " [buffer owner resolved by name only]")
+                continue
+            flagged.add((target, key))
+            chk.violation("cache-alias", f.rel, f.qual, "%s[%s] <- %s" % (target, key, root), line, msg, instance=inst)
+        for target, key, text in sorted(f.keyed_stores):  # noqa: B007
+            n_keyed += 1
+            if (target, key) not in flagged:
+                chk.ok("cache-alias", "%s:%s keyed store %s[%s] @ %s" % (f.rel, f.qual, target, key, text[:60]))
+    chk.count("stores into keyed per-object state", n_keyed)
+    # the reusable scratch buffers the engine recognises today (the rule is vacuous without them)
+    scratch = {}
+    for g in P.funcs.values():
+        if g.cls is None:
+            continue
+        for r, texts in g.state.items():
+            parts, key = effects.state_parts(r)
+            if len(parts) == 1 and (key is None or key.startswith("const:")) and any("->" not in t for t in texts):
+                scratch.setdefault((g.rel, g.cls.name, parts[0]), g)
+    for (rel, cname, attr), g in sorted(scratch.items()):
+        chk.ok("cache-alias", "%s:%s.%s is a per-object buffer rewritten in place (%s); no keyed state aliases it" % (
+            rel, cname, attr, g.node.name))
+    want = ("ciderpress/dft/lcao_nldf_generator.py", "LCAONLDFGenerator", "_vq_buf")
+    if want not in scratch:
+        raise core.AnalysisError("the convolution buffer LCAONLDFGenerator._vq_buf is no longer recognised as a "
+                                 "buffer rewritten in place: the cache-alias rule would pass vacuously")
+    chk.count("per-object buffers rewritten in place", len(scratch))
 
 
 # ----------------------------------------------------------------------------
 # rule 4: generator re-initialisation
 # ----------------------------------------------------------------------------
 REINIT_CLASSES = ["CiderNumIntMixin", "NLDFNumInt", "NLDFNLOFNumInt"]
+REINIT_METHOD = "initialize_feature_generators"
 
 
 def _cond_terms(fn, name="cond"):
@@ -382,84 +509,134 @@ def _cond_terms(fn, name="cond"):
             if isinstance(v, ast.BoolOp) and isinstance(v.values[0], ast.Name) and v.values[0].id == name:
                 (ors if isinstance(v.op, ast.Or) else ands).extend(v.values[1:])
             else:
-                ors, ands = [v], []
+                ors, ands = _split_or(v), []
     return ors, ands
+
+
+def _split_or(t):
+    """disjuncts that make the whole test true on their own (conjuncts that only restrict are dropped)"""
+    if isinstance(t, ast.BoolOp) and isinstance(t.op, ast.Or):
+        out = []
+        for v in t.values:
+            out += _split_or(v)
+        return out
+    if isinstance(t, ast.BoolOp) and isinstance(t.op, ast.And):
+        out = []
+        for v in t.values:
+            if isinstance(v, ast.BoolOp) and isinstance(v.op, ast.Or):
+                out += _split_or(v)
+        return out
+    return [t]
+
+
+def _guarded_constructions(fn, params):
+    """every `self.X = <call>(... method parameter ...)` of the method -> (assign, guarding If or None)"""
+    out = []
+    for n in pf.walk_no_nested(fn):
+        if isinstance(n, ast.Assign) and len(n.targets) == 1 and pf.is_self_attr(n.targets[0]) \
+                and isinstance(n.value, ast.Call):
+            used = {x.id for a in list(n.value.args) + [k.value for k in n.value.keywords] for x in ast.walk(a)
+                    if isinstance(x, ast.Name)} & set(params)
+            if not used:
+                continue
+            guard = None
+            p = pf.parent(n)
+            child = n
+            while p is not None and p is not fn:
+                if isinstance(p, ast.If) and any(child is x for x in p.body):
+                    guard = p
+                    break
+                if isinstance(p, (ast.For, ast.While, ast.Try, ast.With)):
+                    guard = "unrecognised"
+                    break
+                child, p = p, pf.parent(p)
+            out.append((n, guard, used))
+    return out
 
 
 def rule_reinit(chk):
     mod = pf.Module(chk.tree, NUMINT)
     prog = pf.Program(chk.tree, [NUMINT])
-    info = {}
+    classes = [c for c in mod.classes.values() if REINIT_METHOD in pf.methods(c)]
     for cname in REINIT_CLASSES:
-        cls = mod.cls(cname)
-        fn = pf.methods(cls).get("initialize_feature_generators")
-        if fn is None:
-            raise core.AnalysisError("%s.initialize_feature_generators vanished" % cname)
+        if cname not in [c.name for c in classes]:
+            raise core.AnalysisError("%s.%s vanished" % (cname, REINIT_METHOD))
+    chk.count("classes defining initialize_feature_generators", len(classes))
+    info = {}
+    for cls in classes:
+        cname = cls.name
+        fn = pf.methods(cls)[REINIT_METHOD]
         params = [a.arg for a in fn.args.args[1:]]
-        # the guarded construction: if cond: self.<gen> = <init>(args)
-        ifs = [st for st in fn.body if isinstance(st, ast.If) and isinstance(st.test, ast.Name)]
-        if len(ifs) != 1:
-            raise core.AnalysisError("%s.initialize_feature_generators: expected one `if cond:` block" % cname)
-        blk = ifs[0]
-        ctor = None
-        for st in blk.body:
-            if isinstance(st, ast.Assign) and pf.is_self_attr(st.targets[0]) and isinstance(st.value, ast.Call):
-                ctor = st
-        if ctor is None:
-            raise core.AnalysisError("%s.initialize_feature_generators: generator construction not found" % cname)
-        gen_attr = ctor.targets[0].attr
-        used = {n.id for a in ctor.value.args + [k.value for k in ctor.value.keywords] for n in ast.walk(a)
-                if isinstance(n, ast.Name)} & set(params)
-        ors, ands = _cond_terms(fn, blk.test.id)
-        if not ors:
-            raise core.AnalysisError("%s.initialize_feature_generators: reuse condition not found" % cname)
-        fq = "%s.initialize_feature_generators" % cname
-        # (a) every constructor input is compared with recorded state
-        compared = {}
-        for t in ors:
-            if isinstance(t, ast.Compare) and len(t.ops) == 1 and isinstance(t.ops[0], (ast.NotEq, ast.IsNot)):
-                l, r = t.left, t.comparators[0]
-                for a, b in ((l, r), (r, l)):
-                    if isinstance(b, ast.Name) and b.id in params and pf.base_name(a) == "self":
-                        compared[b.id] = a
-        for p in sorted(used):
-            inst = "%s:%s reuse of self.%s compares %s" % (NUMINT, fq, gen_attr, p)
-            if p in compared:
-                chk.ok("reinit", inst)
+        fq = "%s.%s" % (cname, REINIT_METHOD)
+        cons = _guarded_constructions(fn, params)
+        if not cons:
+            raise core.AnalysisError("%s: no construction from (%s) found" % (fq, ", ".join(params)))
+        for asg, guard, used in cons:
+            gen_attr = asg.targets[0].attr
+            ctor_src = pf.src(asg.value.func)
+            if guard is None:
+                chk.ok("reinit", "%s:%s self.%s is rebuilt on every call" % (NUMINT, fq, gen_attr), nontrivial=False)
+                continue
+            if guard == "unrecognised":
+                raise core.AnalysisError("%s: construction of self.%s inside a loop/try/with is not a recognised shape"
+                                         % (fq, gen_attr))
+            ors, ands = (_cond_terms(fn, guard.test.id) if isinstance(guard.test, ast.Name)
+                         else (_split_or(guard.test), []))
+            if not ors:
+                raise core.AnalysisError("%s: reuse condition of self.%s not understood: %s" % (
+                    fq, gen_attr, pf.src(guard.test)))
+            # (a) every constructor input is compared with recorded state
+            compared = {}
+            for t in ors:
+                neg = False
+                while isinstance(t, ast.UnaryOp) and isinstance(t.op, ast.Not):
+                    t, neg = t.operand, not neg
+                if isinstance(t, ast.Compare) and len(t.ops) == 1 and (
+                        (not neg and isinstance(t.ops[0], (ast.NotEq, ast.IsNot)))
+                        or (neg and isinstance(t.ops[0], (ast.Eq, ast.Is)))):
+                    l, r = t.left, t.comparators[0]
+                    for a, b in ((l, r), (r, l)):
+                        if pf.base_name(b) in params and pf.base_name(a) == "self":
+                            compared[pf.base_name(b)] = a
+            for p in sorted(used):
+                inst = "%s:%s reuse of self.%s compares %s" % (NUMINT, fq, gen_attr, p)
+                if p in compared:
+                    chk.ok("reinit", inst)
+                else:
+                    chk.violation("reinit", NUMINT, fq, "reuse condition of self.%s: %s" % (gen_attr, p), guard.lineno,
+                                  "self.%s is built by `%s(...)` from (%s) but is kept across calls under a condition "
+                                  "that never compares %r with the value the object was built for (rebuilt only when: "
+                                  "%s): a later call with a different %s silently reuses the stale object" % (
+                                      gen_attr, ctor_src, ", ".join(sorted(used)), p,
+                                      " or ".join(pf.src(t) for t in ors), p), instance=inst)
+            none_test = any(isinstance(t, ast.Compare) and pf.src(t) == "self.%s is None" % gen_attr for t in ors)
+            if none_test:
+                chk.ok("reinit", "%s:%s first use of self.%s" % (NUMINT, fq, gen_attr), nontrivial=False)
             else:
-                chk.violation("reinit", NUMINT, fq, "reuse condition of self.%s: %s" % (gen_attr, p), fn.lineno,
-                              "self.%s is built from (%s) but is reused without comparing %r with the value it was "
-                              "built for (condition: %s): a call with a different %s silently reuses the stale "
-                              "generator" % (gen_attr, ", ".join(sorted(used)), p,
-                                             " or ".join(pf.src(t) for t in ors), p), instance=inst)
-        none_test = any(isinstance(t, ast.Compare) and pf.src(t) == "self.%s is None" % gen_attr for t in ors)
-        if none_test:
-            chk.ok("reinit", "%s:%s first use of self.%s" % (NUMINT, fq, gen_attr), nontrivial=False)
-        else:
-            chk.violation("reinit", NUMINT, fq, "self.%s is None" % gen_attr, fn.lineno,
-                          "the reuse condition does not test `self.%s is None`" % gen_attr)
-        # (b) what was compared is recorded on every normal path (here or in the super() chain)
-        for p, state in sorted(compared.items()):
-            if not (pf.is_self_attr(state)):
-                continue  # state kept inside the generator (self.<gen>.plan.nspin)
-            attr = state.attr
-            inst = "%s:%s records self.%s = %s" % (NUMINT, fq, attr, p)
-            if _assigns_on_all_paths(prog, mod, cls, fn, attr, p):
-                chk.ok("reinit", inst)
-            else:
-                chk.violation("reinit", NUMINT, fq, "self.%s = %s" % (attr, p), fn.lineno,
-                              "the reuse condition compares self.%s with %s, but self.%s is not updated on every path "
-                              "of this method (nor by the super() call): the comparison is made against a stale or "
-                              "never-set value, so a changed %s is not (or always) detected" % (attr, p, attr, p),
-                              instance=inst)
-        follow = []
-        for st in blk.body:
-            if isinstance(st, ast.Expr) and isinstance(st.value, ast.Call) and pf.base_name(st.value.func) == "self":
-                follow.append(st.value)
-        info[cname] = (gen_attr, pf.src(ctor.value.func), follow, fn, blk)
-    # (c) siblings that build the same generator with the same initializer prepare it alike
+                chk.violation("reinit", NUMINT, fq, "self.%s is None" % gen_attr, guard.lineno,
+                              "the reuse condition does not test `self.%s is None`" % gen_attr)
+            # (b) what was compared is recorded on every normal path (here or in the super() chain)
+            for p, state in sorted(compared.items()):
+                if not pf.is_self_attr(state):
+                    continue  # state kept inside the object itself (self.<gen>.plan.nspin)
+                attr = state.attr
+                if attr == gen_attr:
+                    continue
+                inst = "%s:%s records self.%s = %s" % (NUMINT, fq, attr, p)
+                if _assigns_on_all_paths(prog, mod, cls, fn, attr, p):
+                    chk.ok("reinit", inst)
+                else:
+                    chk.violation("reinit", NUMINT, fq, "self.%s = %s" % (attr, p), fn.lineno,
+                                  "the reuse condition compares self.%s with %s, but self.%s is not updated on every "
+                                  "path of this method (nor by the super() call): the comparison is made against a "
+                                  "stale or never-set value, so a changed %s is not (or always) detected" % (
+                                      attr, p, attr, p), instance=inst)
+            follow = [st.value for st in guard.body if isinstance(st, ast.Expr) and isinstance(st.value, ast.Call)
+                      and pf.base_name(st.value.func) == "self"]
+            info[(cname, gen_attr)] = (gen_attr, ctor_src, follow, fn)
+    # (c) siblings that build the same object with the same initializer prepare it alike
     groups = {}
-    for cname, (gen_attr, ctor_src, follow, fn, blk) in info.items():
+    for (cname, gen_attr), (_g, ctor_src, follow, fn) in info.items():
         groups.setdefault((gen_attr, ctor_src), []).append(cname)
     for (gen_attr, ctor_src), names in sorted(groups.items()):
         if len(names) < 2:
@@ -468,20 +645,76 @@ def rule_reinit(chk):
             continue
         allcalls = {}
         for n in names:
-            for c in info[n][2]:
+            for c in info[(n, gen_attr)][2]:
                 allcalls.setdefault(pf.src(c.func), []).append(n)
         for callsrc, have in sorted(allcalls.items()):
             for n in names:
-                inst = "%s:%s.initialize_feature_generators prepares new self.%s with %s" % (NUMINT, n, gen_attr, callsrc)
+                inst = "%s:%s.%s prepares new self.%s with %s" % (NUMINT, n, REINIT_METHOD, gen_attr, callsrc)
                 if n in have:
                     chk.ok("reinit", inst)
                 else:
-                    chk.violation("reinit", NUMINT, "%s.initialize_feature_generators" % n,
-                                  "missing %s(...) after %s(...)" % (callsrc, ctor_src), info[n][3].lineno,
+                    chk.violation("reinit", NUMINT, "%s.%s" % (n, REINIT_METHOD),
+                                  "missing %s(...) after %s(...)" % (callsrc, ctor_src), info[(n, gen_attr)][3].lineno,
                                   "sibling class(es) %s call `%s(...)` on the freshly built self.%s; %s builds the "
                                   "same generator with the same initializer and never does, so its interpolator has "
                                   "no grid coordinates for the new grids" % (", ".join(have), callsrc, gen_attr, n),
                                   instance=inst)
+
+
+def rule_reinit_reset(chk):
+    """The reuse conditions compare mol / grids by identity, and PySCF moves atoms and rebuilds grids *in place*;
+    what invalidates the generators after such a change is the reset()/build() chain.  So: (i) the numint
+    reset/build hooks clear every generator attribute that initialize_feature_generators keeps across calls, on
+    every path; (ii) the Kohn-Sham wrapper's reset/build reach the numint hook on every path."""
+    mod = pf.Module(chk.tree, NUMINT)
+    kept = set()
+    for cls in mod.classes.values():
+        fn = pf.methods(cls).get(REINIT_METHOD)
+        if fn is None:
+            continue
+        for asg, guard, used in _guarded_constructions(fn, [a.arg for a in fn.args.args[1:]]):
+            if guard is not None:
+                kept.add(asg.targets[0].attr)
+    if len(kept) < 2:
+        raise core.AnalysisError("expected at least the sdmx and nldf generators to be kept across calls, found %s" % sorted(kept))
+    mix = mod.cls("CiderNumIntMixin")
+    for hook in ("reset", "build"):
+        fn = pf.methods(mix).get(hook)
+        if fn is None:
+            raise core.AnalysisError("CiderNumIntMixin.%s vanished" % hook)
+        g = cfgm.CFG(fn)
+        for attr in sorted(kept):
+            inst = "%s:CiderNumIntMixin.%s clears self.%s on every path" % (NUMINT, hook, attr)
+            ok, _w = g.must_pass(lambda n, a=attr: n.kind == "stmt" and isinstance(n.ast, ast.Assign)
+                                 and any(pf.is_self_attr(t, a) for t in n.ast.targets)
+                                 and isinstance(n.ast.value, ast.Constant) and n.ast.value.value is None)
+            if ok:
+                chk.ok("reinit-reset", inst)
+            else:
+                chk.violation("reinit-reset", NUMINT, "CiderNumIntMixin.%s" % hook, "self.%s = None" % attr, fn.lineno,
+                              "self.%s is kept across calls by %s and is only compared by identity with mol/grids; "
+                              "%s() does not set it to None on every path, so after an in-place geometry change the "
+                              "stale generator is reused" % (attr, REINIT_METHOD, hook), instance=inst)
+    DFT = "ciderpress/pyscf/dft.py"
+    dm = pf.Module(chk.tree, DFT)
+    for hook in ("reset", "build"):
+        fn = dm.func("_CiderKS.%s" % hook)
+        g = cfgm.CFG(fn)
+        inst = "%s:_CiderKS.%s reaches self._numint.%s on every path" % (DFT, hook, hook)
+
+        def is_hook(n, h=hook):
+            if n.kind != "stmt" or n.ast is None:
+                return False
+            return any(isinstance(c, ast.Call) and pf.src(c.func) == "self._numint.%s" % h for c in ast.walk(n.ast))
+        ok, _w = g.must_pass(is_hook)
+        if ok:
+            chk.ok("reinit-reset", inst)
+        else:
+            chk.violation("reinit-reset", DFT, "_CiderKS.%s" % hook, "self._numint.%s(...)" % hook, fn.lineno,
+                          "a path through _CiderKS.%s returns without calling self._numint.%s(...): the feature "
+                          "generators (reused when `self.mol != mol` / `self.grids != grids` are false, i.e. for the "
+                          "same, in-place modified objects) survive a geometry or basis change and energies / forces "
+                          "are computed with the old atom positions and grids" % (hook, hook), instance=inst)
 
 
 def _assigns_on_all_paths(prog, mod, cls, fn, attr, param, _depth=0):
@@ -645,6 +878,86 @@ def rule_chunk_loop(chk):
 
 
 # ----------------------------------------------------------------------------
+# rule memo-invalidate: a memoised attribute is reset by every method that changes what it was computed from
+# ----------------------------------------------------------------------------
+def _self_loads(prog, mod, cls, fn, skip=(), _seen=None):
+    """attributes of self read by fn, following self.method() calls and properties inside the class hierarchy"""
+    _seen = _seen if _seen is not None else set()
+    if id(fn) in _seen:
+        return set()
+    _seen.add(id(fn))
+    out = set()
+    skip_ids = {id(x) for s_ in skip for x in ast.walk(s_)}
+    for n in pf.walk_no_nested(fn):
+        if id(n) in skip_ids:
+            continue
+        if pf.is_self_attr(n) and isinstance(n.ctx, ast.Load):
+            r = prog.find_method(mod, cls, n.attr)
+            if r is not None:
+                out |= _self_loads(prog, r[0], cls, r[2], (), _seen)
+            else:
+                out.add(n.attr)
+    return out
+
+
+def rule_memo(chk):
+    prog = pf.Program(chk.tree, EFF_MODULES)
+    n_memo = 0
+    for mod, cls in prog.all_classes():
+        for mname, m in pf.methods(cls).items():
+            for g in pf.walk_no_nested(m):
+                if not (isinstance(g, ast.If) and g.body and isinstance(g.body[-1], ast.Return)
+                        and pf.is_self_attr(g.body[-1].value)):
+                    continue
+                memo = g.body[-1].value.attr
+                if not any(pf.is_self_attr(x, memo) for x in ast.walk(g.test)):
+                    continue
+                fills = [n for n in pf.walk_no_nested(m) if isinstance(n, ast.Assign)
+                         and any(pf.is_self_attr(t, memo) for t in n.targets)
+                         and not (isinstance(n.value, ast.Constant) and n.value.value is None)]
+                if not fills:
+                    continue  # a plain override / default, not a memo of something computed here
+                n_memo += 1
+                deps = _self_loads(prog, mod, cls, m, skip=[g]) - {memo}
+                related = [(mod, cls)] + [(m2, c2) for m2, c2 in prog.all_classes()
+                                          if c2 is not cls and any(cc is cls for _, cc in prog.mro(m2, c2))]
+                related += prog.mro(mod, cls)[1:]
+                seen = set()
+                for m2, c2 in related:
+                    for gname, gf in pf.methods(c2).items():
+                        if gf is m or gname == "__init__" or id(gf) in seen:
+                            continue
+                        seen.add(id(gf))
+                        changed = set()
+                        resets = False
+                        for n in pf.walk_no_nested(gf):
+                            tg = n.targets if isinstance(n, ast.Assign) else ([n.target] if isinstance(n, ast.AugAssign) else [])
+                            for t in tg:
+                                for x in (t.elts if isinstance(t, ast.Tuple) else [t]):
+                                    if pf.is_self_attr(x) and x.attr in deps:
+                                        changed.add(x.attr)
+                                    if pf.is_self_attr(x, memo):
+                                        resets = True
+                        if not changed:
+                            continue
+                        inst = "%s:%s.%s changes %s of memo self.%s (%s.%s)" % (
+                            m2.rel, c2.name, gname, sorted(changed), memo, cls.name, mname)
+                        if resets:
+                            chk.ok("memo-invalidate", inst)
+                        else:
+                            chk.violation("memo-invalidate", m2.rel, "%s.%s" % (c2.name, gname),
+                                          "self.%s not reset when self.%s changes" % (memo, "/".join(sorted(changed))),
+                                          gf.lineno,
+                                          "%s.%s returns the cached self.%s while `%s` holds, and computes it from "
+                                          "self.{%s}; %s.%s assigns self.%s without resetting self.%s, so the next "
+                                          "%s() returns the value computed for the previous %s" % (
+                                              cls.name, mname, memo, pf.src(g.test)[:80], ", ".join(sorted(deps)),
+                                              c2.name, gname, "/".join(sorted(changed)), memo, mname,
+                                              "/".join(sorted(changed))), instance=inst)
+    chk.count("memoised attributes (early `return self.M` + fill in the same method)", n_memo)
+
+
+# ----------------------------------------------------------------------------
 def analyse(chk):
     chk.rule("batch-index", "batch-axis subscripts are enclosing batch induction variables / full slices / guarded literals")
     chk.rule("cache-typestate", "generator consume is preceded by its produce in the same batch iteration and spin slot")
@@ -652,17 +965,26 @@ def analyse(chk):
     chk.rule("reinit", "generator reuse compares every constructor input, records it, siblings prepare alike")
     chk.rule("ctor-roundtrip", "NLDFAuxiliaryPlan.new feeds back raw constructor arguments")
     chk.rule("chunk-loop", "KernelEvaluator chunk loop covers [0,N) and accumulates")
+    chk.rule("reinit-reset", "reset()/build() clear the kept generators and are reached from the KS wrapper on every path")
+    chk.rule("cache-alias", "values stored into keyed per-object state do not alias a reusable instance buffer")
+    chk.rule("kernel-input-write", "hidden-write restricted to ciderpress/models (kernel inputs X, Y are not mutated)")
+    chk.rule("memo-invalidate", "methods that change the inputs of a memoised attribute reset the memo")
     bfs = chk.guard(rule_batch_index)
     if bfs is not None:
         chk.guard(rule_cache_typestate, bfs)
     chk.guard(rule_hidden_write)
     chk.guard(rule_reinit)
+    chk.guard(rule_reinit_reset)
     chk.guard(rule_ctor_roundtrip)
     chk.guard(rule_chunk_loop)
+    chk.guard(rule_memo)
     chk.floor("batch-index", 110, "130 classified batch-axis indexes in 12 functions on the pinned tree")
     chk.floor("cache-typestate", 14, "11 consume sites + spin forwarding in the generator")
-    chk.floor("hidden-write", 400, "non-buffer parameters of ~430 API entry points")
+    chk.floor("hidden-write", 600, "non-buffer parameters of the dft/pyscf API entry points incl. constructors")
+    chk.floor("kernel-input-write", 180, "non-buffer parameters of the kernels.py / dft_kernel.py entry points")
+    chk.floor("cache-alias", 14, "8 keyed stores + the per-object scratch buffers")
     chk.floor("reinit", 10, "3 classes x (inputs compared, recorded, sibling preparation)")
+    chk.floor("reinit-reset", 6, "2 kept generators x 2 hooks + 2 wrapper hooks")
     chk.floor("ctor-roundtrip", 10, "10 keywords fed back by NLDFAuxiliaryPlan.new")
     chk.floor("chunk-loop", 1, "KernelEvaluator.__call__")
     chk.assumptions += [
@@ -671,8 +993,12 @@ def analyse(chk):
         "fill_diagonal, ufunc.at and the frozen pyscf table (_gga_grad_sum_, _tau_grad_dot_, _dot_ao_ao_sparse, "
         "_scale_ao_sparse)",
         "calls through untyped callables (counted in `analysed`) and ctypes calls are assumed not to write caller arrays",
-        "output-buffer convention: `=None` optional buffer, a frozen list of buffer names, or the first data argument "
-        "of a function with an `inplace` switch",
+        "output-buffer convention: a frozen list of buffer names, an optional `=None` parameter that the function "
+        "allocates itself when missing, or the first data argument of a function with an `inplace` switch",
+        "np.asarray/ascontiguousarray/asfortranarray/reshape/ravel/squeeze/astype(copy=False) may return their "
+        "argument; np.ndarray(buffer=b) is a view of b and marks b as about to be overwritten",
+        "a store `self.A[key] = v` / `self.A[key].append(v)` with a plain key rebinds a slot of a python container; "
+        "loops around scratch-buffer uses run; scratch buffers selected by a run-time key are per-key",
     ]
     chk.not_decided += [
         "bit-equality of results for different blksize / max_memory (numerical)",
@@ -708,8 +1034,8 @@ def mutants(tree):
         Mutant("write to a non-buffer parameter (get_s2)", SETTINGS, "    s[cond] = 0.0\n    return s * s",
                "    sigma[cond] = 0.0\n    return s * s", expect="hidden-write"),
         Mutant("dominating copy removed (get_cider_exponent_gga)", SETTINGS,
-               "    cond = rho < rhocut\n    rho = rho.copy()\n    rho[cond] = rhocut\n    sigma[cond] = 0\n    if nspin == 1:\n        B = np.pi / 2 ** (2.0 / 3) * a0",
-               "    cond = rho < rhocut\n    rho[cond] = rhocut\n    sigma[cond] = 0\n    if nspin == 1:\n        B = np.pi / 2 ** (2.0 / 3) * a0",
+               "    cond = rho < rhocut\n    rho = rho.copy()\n    sigma = sigma.copy()\n    rho[cond] = rhocut\n    sigma[cond] = 0\n    if nspin == 1:\n        B = np.pi / 2 ** (2.0 / 3) * a0",
+               "    cond = rho < rhocut\n    sigma = sigma.copy()\n    rho[cond] = rhocut\n    sigma[cond] = 0\n    if nspin == 1:\n        B = np.pi / 2 ** (2.0 / 3) * a0",
                expect="hidden-write"),
         Mutant("alias instead of fresh array (eval_xc_cider)", NUMINT, "        vxc = np.zeros_like(rho)\n",
                "        vxc = rho\n", expect="hidden-write"),
@@ -735,11 +1061,80 @@ def mutants(tree):
                "            self.sdmxgen = self.sdmx_init.initialize_sdmx_generator(mol, nspin)\n", expect="reinit"),
         Mutant("expcut stored transformed", PLANS, "        self.expcut = expcut\n", "        self.expcut = expcut / nspin\n",
                expect="ctor-roundtrip"),
+        # --- round 2 -----------------------------------------------------------------------------------
+        Mutant("cached conv_vq is the convolution buffer itself", GEN, "conv_vq.copy()", "conv_vq", expect="cache-alias"),
+        Mutant("per-spin cache keeps the scratch buffer used for theta", GEN,
+               '            "func_g": func_g,\n', '            "func_g": func_g,\n            "theta_uq": self._uq_buf[:, :1],\n',
+               expect="cache-alias"),
+        Mutant("plan-level coefficient buffer handed to the per-spin cache", PLANS, "", "", fn=_persistent_dbuf,
+               expect="cache-alias"),
+        Mutant("l=0 SDMX projections scaled through out=", PLANS, "        tmp = fac * vxc_ig[:n0, None] * l0tmp  # fqg\n",
+               "        tmp = np.multiply(l0tmp, fac * vxc_ig[:n0, None], out=l0tmp)  # fqg\n", expect="hidden-write"),
+        Mutant("positional out of a ufunc", FN, "        rho_term = np.maximum(X0T[:, 0], self.cutoff)\n        grad_term = X0T[:, 1]\n",
+               "        rho_term = np.maximum(X0T[:, 0], self.cutoff, X0T[:, 0])\n        grad_term = X0T[:, 1]\n",
+               expect="hidden-write"),
+        Mutant("constructor normalises the caller's array through np.asarray", XE,
+               '        self.consts = np.asarray(consts, dtype=np.float64, order="C")\n',
+               '        self.consts = np.asarray(consts, dtype=np.float64, order="C")\n        self.consts /= np.abs(self.consts).max()\n',
+               expect="hidden-write"),
+        Mutant("attribute alias written by a subclass constructor", XE, "self._alpha = np.ascontiguousarray(alpha * scale)",
+               "self._alpha = np.ascontiguousarray(alpha).ravel()", expect="hidden-write"),
+        Mutant("kernel shifts its input in place", KERNELS, "            X = X - self.avg\n        if self.std is not None:\n            X = X / self.std\n        return X.dot(self.matrix)",
+               "            X -= self.avg\n        if self.std is not None:\n            X = X / self.std\n        return X.dot(self.matrix)",
+               expect="kernel-input-write"),
+        Mutant("fractional-Laplacian plan kept across calls without comparing nspin", NUMINT,
+               "        self.fl_plan = FracLaplPlan(self.settings.nlof_settings, nspin)\n        cond = self.sdmxgen is None",
+               "        if self.fl_plan is None:\n            self.fl_plan = FracLaplPlan(self.settings.nlof_settings, nspin)\n        cond = self.sdmxgen is None",
+               expect="reinit"),
+        Mutant("nldf generator reuse ignores the grids (inline condition)", NUMINT, "", "", fn=_inline_cond_without_grids,
+               expect="reinit"),
+        Mutant("numint reset forgets the nldf generator", NUMINT,
+               "    def reset(self, mol=None):\n        self.mol = mol\n        self.sl_plan = None\n        self.fl_plan = None\n        self.sdmxgen = None\n        self.nldfgen = None\n",
+               "    def reset(self, mol=None):\n        self.mol = mol\n        self.sl_plan = None\n        self.fl_plan = None\n        self.sdmxgen = None\n",
+               expect="reinit-reset"),
+        Mutant("KS build skips the numint hook when no molecule is given", "ciderpress/pyscf/dft.py",
+               "        self._numint.build(mol=mol)\n        return super().build(mol, **kwargs)",
+               "        if mol is not None:\n            self._numint.build(mol=mol)\n        return super().build(mol, **kwargs)",
+               expect="reinit-reset"),
+        Mutant("memoised control-point covariance not reset by set_kernel", DFTKERNEL, "", "", fn=_memo_kctrl,
+               expect="memo-invalidate"),
         Mutant("chunk result overwritten", XE, "res[i0:i1] += k.dot(self.alpha)", "res[i0:i1] = k.dot(self.alpha)",
                expect="chunk-loop"),
         Mutant("chunk loop skips the first chunk", XE, "for i0 in range(0, N, dn):", "for i0 in range(dn, N, dn):",
                expect="chunk-loop"),
     ]
+
+
+def _persistent_dbuf(text):
+    """eval_rho_full: keep the coefficient scratch array on the plan and cache dp (a view of it) per spin"""
+    a = "        dbuf = self.empty_coefs(ngrids, local=False)\n        for i in range(num_vj):\n            a_g = self.get_interpolation_arguments(rho_tuple, i=i)[0]"
+    b = "                self._cache_p_tensor(spin, p)"
+    if a not in text or b not in text:
+        return None
+    text = text.replace(a, "        if getattr(self, \"_dbuf\", None) is None or self._dbuf.shape[-1] != ngrids:\n"
+                        "            self._dbuf = self.empty_coefs(ngrids, local=False)\n        dbuf = self._dbuf\n"
+                        "        for i in range(num_vj):\n            a_g = self.get_interpolation_arguments(rho_tuple, i=i)[0]", 1)
+    return text.replace(b, "                self._cache_p_tensor(spin, dp)", 1)
+
+
+def _inline_cond_without_grids(text):
+    a = ("        cond = self.nldfgen is None\n        cond = cond or self.grids != grids\n        cond = cond or self.mol != mol\n"
+         "        cond = cond or self.nldfgen.plan.nspin != nspin\n        if cond:\n")
+    if a not in text:
+        return None
+    return text.replace(a, "        if self.nldfgen is None or self.mol != mol or not (self.nldfgen.plan.nspin == nspin):\n", 1)
+
+
+def _memo_kctrl(text):
+    a = '        Compute the covariance matrix of the control points.\n        """\n'
+    b = "        self.Kmm = k\n        return self.Kmm\n"
+    c = "        self.X1ctrl = X1\n\n    def get_kctrl(self):"
+    if a not in text or b not in text or c not in text:
+        return None
+    text = text.replace(a, a + "        if getattr(self, \"_kctrl\", None) is not None and self._kctrl.shape[0] == self.Nctrl:\n"
+                        "            return self._kctrl\n", 1)
+    text = text.replace(b, "        self.Kmm = k\n        self._kctrl = k\n        return self._kctrl\n", 1)
+    return text.replace(c, "        self.X1ctrl = X1\n        self._kctrl = None\n\n    def get_kctrl(self):", 1)
 
 
 def _move_potential_first(text):
